@@ -47,7 +47,7 @@ def run(ctx):
     alt = [
         ["--leaf", "65", "--style", "readeof", "--boundary", "--reads", "light"],
         ["--leaf", "96", "--style", "read", "--crc", "--prefetch", "1", "--reads", "light"],
-        ["--leaf", "64", "--style", "writeto", "--boundary", "--crc", "--cache1", "--reads", "light"],
+        ["--leaf", "64", "--style", "writeto", "--boundary", "--crc", "--cache1", "--reads", "full"],
         ["--leaf", "4096", "--style", "writeto", "--prefetch", "2", "--cache1", "--reads", "light"],
     ]
     jobs.append(job("a", beh, ["--leaf", "64", "--style", "writeto", "--reads", "full"]))
@@ -84,6 +84,10 @@ def run(ctx):
                                      "--style", "read", "--reads", "light", "--boundary"]))
     # hash verification switched off (an option of the store): reads must return the stored bytes all the same;
     # leaves of 96 KiB and 100 000 bytes are copied in more than two 32 KiB pieces by the streaming paths
+    # store readers that hand out 1000 bytes per Read and return io.EOF together with the last bytes (leaf 4096);
+    # a leaf cache of ONE leaf under the full read matrix (sequential reader vs random reads of one instance)
+    jobs.append(job("eofreads", mixed, ["--leaf", "4096", "--eof-reads", "--style", "read", "--reads", "full"]))
+    jobs.append(job("cache1", mixed, ["--leaf", "64", "--cache1", "--noverify", "--style", "read", "--reads", "full"]))
     jobs.append(job("noverify", mixed, ["--leaf-cycle", "98304,100000,64", "--noverify", "--style", "writeto", "--reads", "full"]))
     results = vlib.parallel(jobs, max_workers=8)
     tot = vlib.account(ctx, results)
